@@ -263,6 +263,10 @@ namespace Pistache::Http
 
             auto* response = static_cast<Response*>(message);
 
+            // Both version tokens have the same length: wait until one can be there
+            if (cursor.remaining() < strlen("HTTP/1.1"))
+                return State::Again;
+
             if (match_raw("HTTP/1.1", strlen("HTTP/1.1"), cursor))
             {
                 // response->version = Version::Http11;
